@@ -279,6 +279,13 @@ type SimSub struct {
 	// stay what it was.
 	Args map[string]interface{}
 
+	// TimeoutErr: failing deliveries return an error shaped like a network
+	// timeout (Timeout() == true).
+	TimeoutErr bool
+	// ByValue: the subscription resolver hands the subscriber to the library by
+	// value, wrapped in a struct that can neither be compared nor hashed.
+	ByValue bool
+
 	// Companion adds a second root field to the subscription request whose
 	// resolver refuses (unknown subscriber): the request as a whole fails and
 	// must not register anything.
@@ -295,8 +302,42 @@ type SimSub struct {
 // ErrSend is returned by failing deliveries.
 var ErrSend = errors.New("simsub: delivery failed")
 
+// errSendTimeout is a failed delivery shaped like a network timeout (what a
+// write deadline on a connection produces): still a failed delivery.
+type errSendTimeout struct{}
+
+func (errSendTimeout) Error() string   { return "simsub: delivery failed: i/o timeout" }
+func (errSendTimeout) Timeout() bool   { return true }
+func (errSendTimeout) Temporary() bool { return true }
+
+// ErrSendTimeout is the timeout-shaped delivery failure.
+var ErrSendTimeout error = errSendTimeout{}
+
+// ValSub is a subscriber handed to the library by value: a struct that cannot
+// be a map key or be compared (it has a slice field), whose methods have value
+// receivers and delegate to the simulated subscriber.
+type ValSub struct {
+	S   *SimSub
+	Buf []byte
+}
+
+// Match implements ggql.Subscriber.
+func (v ValSub) Match(eventID string) bool { return v.S.Match(eventID) }
+
+// Send implements ggql.Subscriber.
+func (v ValSub) Send(value interface{}) error { return v.S.Send(value) }
+
+// Unsubscribe implements ggql.Subscriber.
+func (v ValSub) Unsubscribe() { v.S.Unsubscribe() }
+
 // Match implements ggql.Subscriber.
 func (s *SimSub) Match(eventID string) bool {
+	if strings.HasPrefix(eventID, "~") {
+		// an id of the application's own that no subscriber listens to (used by
+		// re-entrant calls from a subscription resolver)
+		s.env.Event("Probe", strconv.Itoa(s.ID)+"|"+eventID)
+		return false
+	}
 	m := s.Topic == "" || s.Topic == eventID
 	if s.Args != nil && toInt(s.Args["sid"]) != s.ID {
 		// the argument map handed to the resolver at registration was changed
@@ -321,6 +362,9 @@ func (s *SimSub) Send(value interface{}) error {
 	s.kept, s.keptCanon = value, CanonLite(value)
 	s.env.Event("SendEnd", strconv.Itoa(s.ID))
 	if fail {
+		if s.TimeoutErr {
+			return ErrSendTimeout
+		}
 		return ErrSend
 	}
 	return nil
@@ -378,6 +422,9 @@ type SubWorld struct {
 	// leaf-typed subscription field (no selection set); the events are Go values
 	// that output coercion changes (time.Time, ggql.Symbol, []int).
 	Leaf int
+	// ResolverReenters (1 Unsubscribe, 2 AddEvent): the subscription resolver
+	// calls the registry itself, with an id nobody listens to, before it answers.
+	ResolverReenters int
 	// ReuseSub: the subscription resolver keeps the *ggql.Subscription it made
 	// for a subscriber and hands the same object back when that subscriber
 	// subscribes again.
@@ -430,18 +477,31 @@ func (s subSubscription) Resolve(field *ggql.Field, args map[string]interface{})
 		return nil, errors.New("unknown subscriber " + strconv.Itoa(sid))
 	}
 	sub.Args = args
+	switch s.w.ResolverReenters {
+	case 1:
+		// the subscription resolver uses the registry itself before it answers
+		// (a connection that subscribes again drops what it had under an id of
+		// its own; nobody listens to this id)
+		s.w.Root.Unsubscribe("~conn" + strconv.Itoa(sid))
+	case 2:
+		_, _ = s.w.Root.AddEvent("~joined", nil)
+	}
+	var subscriber ggql.Subscriber = sub
+	if sub.ByValue {
+		subscriber = ValSub{S: sub, Buf: make([]byte, 0, 8)}
+	}
 	if s.w.ReuseSub {
 		if ks := s.w.keptSubs[sid]; ks != nil {
 			return ks, nil
 		}
-		ks := ggql.NewSubscription(sub, field, args)
+		ks := ggql.NewSubscription(subscriber, field, args)
 		if s.w.keptSubs == nil {
 			s.w.keptSubs = map[int]*ggql.Subscription{}
 		}
 		s.w.keptSubs[sid] = ks
 		return ks, nil
 	}
-	return ggql.NewSubscription(sub, field, args), nil
+	return ggql.NewSubscription(subscriber, field, args), nil
 }
 
 // Resolve implements ggql.Resolver for the schema level.
